@@ -27,7 +27,7 @@ import (
 
 // c09Op is one operation of a client task.
 type c09Op struct {
-	Op       string `json:"op"` // render | render-shared | render-struct | js | compile | parse
+	Op       string `json:"op"` // render | render-shared | render-struct | js | compile | parse | lookup (Template = locale)
 	Template string `json:"template,omitempty"`
 	Data     int    `json:"data,omitempty"`
 	IJ       int    `json:"ij,omitempty"`
@@ -195,6 +195,20 @@ func execOp(op c09Op, cc *sut.Compiled, dataMaps, ijMaps []data.Map, cat soymsg.
 			buf.WriteString("|" + strconv.FormatBool(rerr != nil))
 			r.out = buf.Bytes()
 		}
+	case "lookup":
+		// the application asks the shared PO provider for the bundle of a locale that has no
+		// catalogue of its own (fallback path) and renders with it
+		prov := providerFor(cc)
+		if prov == nil {
+			r.out = []byte("no provider")
+			return r
+		}
+		b := prov.Bundle(op.Template)
+		if b == nil {
+			r.out = []byte("nil bundle")
+			return r
+		}
+		r.out = []byte("bundle:" + b.Locale())
 	case "parse":
 		gc := prepared(op)
 		n, err := parse.SoyFile("p.soy", gc.Files[0].Text)
@@ -205,6 +219,11 @@ func execOp(op c09Op, cc *sut.Compiled, dataMaps, ijMaps []data.Map, cat soymsg.
 	}
 	return r
 }
+
+// providers holds the PO provider of the system bundle and of the reference bundle of the run.
+var providers = map[*sut.Compiled]soymsg.Provider{}
+
+func providerFor(cc *sut.Compiled) soymsg.Provider { return providers[cc] }
 
 // preparedCases holds the independent bundles of the run's compile and parse operations, generated
 // and printed before the client tasks start (read-only afterwards).
@@ -488,6 +507,10 @@ func c09Run(cs *c09One, replay bool) c09Outcome {
 			return &roBundle{msgs: faults.NewBundle(faults.BundleKind(cs.CatKind%3), c.Msgs).Msgs}
 		}
 		cat, refCat := mkCat(cc), mkCat(ref)
+		providers = map[*sut.Compiled]soymsg.Provider{}
+		if cs.CatKind == faults.KindPO {
+			providers[cc], providers[ref] = faults.POProvider(cc.Msgs), faults.POProvider(ref.Msgs)
+		}
 		shared := sharedRenderers(cs, cc, ijMaps, cat)
 		refShared := sharedRenderers(cs, ref, refIJ, refCat)
 		for _, t := range cs.Tasks {
@@ -732,6 +755,8 @@ func c09Generate(c *wk.Ctx, run, i int) *c09One {
 					op.Ill = true
 				}
 				ops = append(ops, op)
+			case x < 53 && cs.CatKind == faults.KindPO:
+				ops = append(ops, c09Op{Op: "lookup", Template: []string{"en_US", "en_GB", "fr_CA", "de", "en", "fr_FR", "en_US"}[r.Intn(7)]})
 			case x < 62:
 				ops = append(ops, c09Op{Op: "render-shared", Template: e.Template, Data: e.Data, IJ: e.IJ, Cat: useCat})
 			case x < 68:
